@@ -334,6 +334,10 @@ def apply_contract(interp, fi, c, args, kwargs, fr, node):
         interp.assume_lemmas(hints, fr)
     interp._old_frames.append(Frame(fi, oldenv, spec=True))
     interp.ghost_frames.append({g: interp.fresh_typed('ghost.' + g, ty) for g, ty in c.get('ghost_locals', {}).items()})
+    if fr is not None and not fr.spec:
+        # the callee's ghost witnesses stay visible to the caller's own postcondition as local("ghost_<name>")
+        for g, v in interp.ghost_frames[-1].items():
+            fr.env['ghost_' + g] = v
     try:
         for i, r in enumerate(c.get('requires', [])):
             if is_ctor and r.startswith('INV'):
